@@ -55,4 +55,10 @@ theorem validate_no_chunks : Facts.c14_validate_no_chunks = "msg.Chunks == 0" :=
 /-- `SyncAny` rejects the snapshot on an error wrapping `context.DeadlineExceeded` (model: `.deadline`) -/
 theorem syncany_deadline_branch : Facts.c14_syncany_deadline_branch = true := by decide
 
+/-- every error path of the hand-over in `startStateSync` returns (model: `Props.C14.repoHandCode`;
+`handover_starts_only_if_both_stored` is about exactly this error handling) -/
+theorem handover_sync_err_returns : Facts.c14_handover_sync_err_returns = true := by decide
+theorem handover_seen_err_returns : Facts.c14_handover_seen_err_returns = true := by decide
+theorem handover_boot_err_returns : Facts.c14_handover_boot_err_returns = true := by decide
+
 end Tmv.Expect.C14
